@@ -93,6 +93,8 @@ type PageTree struct {
 	root     core.Dict
 	resolver ObjectResolver
 	pages    []*Page // Cached flattened page list
+
+	visitedNodes map[int]bool // object numbers of the intermediate /Pages nodes already traversed
 }
 
 // NewPageTree creates a new page tree from the root pages dictionary
@@ -164,6 +166,7 @@ func (t *PageTree) Pages() ([]*Page, error) {
 // loadPages traverses the page tree and builds the flattened page list
 func (t *PageTree) loadPages() error {
 	t.pages = make([]*Page, 0)
+	t.visitedNodes = make(map[int]bool)
 
 	// Start recursive traversal from root
 	if err := t.traversePageNode(t.root, nil, make(map[int]bool), 0); err != nil {
@@ -232,6 +235,20 @@ func (t *PageTree) traversePageNode(node core.Dict, parent core.Dict, onPath map
 			kidDict, ok := kidResolved.(core.Dict)
 			if !ok {
 				return fmt.Errorf("invalid kid type: %T", kidResolved)
+			}
+
+			// An intermediate node has exactly one parent. A file that lists the same /Pages
+			// node under several parents would be flattened into exponentially many leaves.
+			if isRef {
+				if kidType, _ := kidDict.Get("Type").(core.Name); kidType == "Pages" {
+					if t.visitedNodes[kidRef.Number] {
+						return fmt.Errorf("page tree node %d is listed under more than one parent", kidRef.Number)
+					}
+					if t.visitedNodes == nil {
+						t.visitedNodes = make(map[int]bool)
+					}
+					t.visitedNodes[kidRef.Number] = true
+				}
 			}
 
 			// Recursively traverse child (passing current node as parent)
